@@ -7,6 +7,8 @@
  *   VSHIM_ROLE                free-form role name inherited by children
  *   VSHIM_CRASH=key:k         die (SIGKILL) before the k-th mutating call of process `key`
  *   VSHIM_CRASHFLAG=path      created at the crash; every other process dies at its next mutating call
+ *   VSHIM_SIGNAL=key:k:signo  process `key` receives signal signo just before its k-th mutating call (raise(): the program's own
+ *                             handler runs at that instant, e.g. qmail-queue's 24 h alarm)
  *   VSHIM_FAULT=key:class:k:errno|short   k-th call of class fails
  *   VSHIM_CRASH_GEN=n, VSHIM_FAULT_GEN=n  (optional) the crash/fault spec applies only to processes that are n fork()s
  *                             away from their last exec (0 = the exec'd program itself, 1 = its not-exec'd fork child, ...);
@@ -58,6 +60,7 @@ static char fault_key[160], fault_class[32]; static long fault_k = -1; static in
 static long mutcount;
 static long classcount[32];
 static long forkgen; static long crash_gen = -1, fault_gen = -1;
+static char sig_key[128]; static long sig_k = -1; static int sig_no;
 static volatile long long *clockoff;
 static int drive; static int ctlfd = -1; static const char *ctlpath;
 static const char *gatepath; static int gatefd = -1; static pid_t gatepid;
@@ -109,6 +112,9 @@ static void init(void)
   s = getenv("VSHIM_CRASH");
   if (s) { const char *c = strrchr(s, ':'); if (c) { snprintf(crash_key, sizeof crash_key, "%.*s", (int)(c - s), s); crash_k = atol(c + 1); } }
   crashflag = getenv("VSHIM_CRASHFLAG");
+  s = getenv("VSHIM_SIGNAL");
+  if (s) { char b[200], *p, *q; snprintf(b, sizeof b, "%s", s); p = strchr(b, ':');
+           if (p) { *p++ = 0; q = strchr(p, ':'); if (q) { *q++ = 0; snprintf(sig_key, sizeof sig_key, "%s", b); sig_k = atol(p); sig_no = atoi(q); } } }
   s = getenv("VSHIM_CRASH_GEN"); if (s && *s) crash_gen = atol(s);
   s = getenv("VSHIM_FAULT_GEN"); if (s && *s) fault_gen = atol(s);
   s = getenv("VSHIM_FAULT");
@@ -177,6 +183,7 @@ static void fdpath(int fd, char *out, size_t n)
   esc(out, n, buf);
 }
 
+static long trace_bytes;
 static void tr(const char *fmt, ...)
 {
   char b[1400]; int n; va_list ap; int e = errno;
@@ -187,6 +194,10 @@ static void tr(const char *fmt, ...)
   if (n > (int)sizeof b - 2) n = sizeof b - 2;
   b[n++] = '\n';
   { REAL(write); real_write(tracefd, b, n); }
+  /* a program that has gone wild (or lost its harness) must not fill the scratch file system: 256 MB of trace per process is far beyond
+     anything a check produces (largest legitimate trace measured: 40 MB) */
+  trace_bytes += n;
+  if (trace_bytes > (256L << 20)) raise(SIGKILL);
   errno = e;
 }
 
@@ -284,6 +295,12 @@ static void maybe_crash(const char *call, const char *arg)
       if (crashflag) { REAL(open); REAL(close); int fd = real_open(crashflag, O_WRONLY | O_CREAT, 0644); if (fd >= 0) real_close(fd); }
       raise(SIGKILL);
     }
+  }
+  if (sig_k >= 0 && mutcount == sig_k && keymatch(sig_key) && forkgen == 0) {
+    long k = mutcount++;            /* the handler may itself make mutating calls */
+    tr("SIGNAL\t%ld\t%d\t%s\t%s", k, sig_no, call, arg ? arg : "-");
+    raise(sig_no);
+    return;
   }
   ++mutcount;
 }
